@@ -711,6 +711,8 @@ func runC19(tierName string) int {
 		healRuns, healOK                 int
 		probes                           map[string]int
 		worldChanges                     int
+		hangs                            int
+		firstHang                        string
 		worldSamples                     []string
 		samples                          []any
 		srcKinds, dstKinds, shapes, encs map[string]int
@@ -734,6 +736,15 @@ func runC19(tierName string) int {
 			s = c.genScenario(deriveSeed(baseSeed, 500, uint64(i-nGrid)), progs)
 		}
 		o, v, err := c.execute(s, false)
+		if he, ok := err.(hangErr); ok {
+			A.Lock()
+			A.hangs++
+			if A.firstHang == "" {
+				A.firstHang = string(he)
+			}
+			A.Unlock()
+			return
+		}
 		if err != nil {
 			infraFail("scenario seed %d: %v", s.Seed, err)
 		}
@@ -909,6 +920,7 @@ func runC19(tierName string) int {
 			"faults_planned":                     A.faultsPlanned,
 			"faults_fired":                       A.faultsFired,
 			"grid_trace_fallbacks":               gridTraceFallback,
+			"watchdog_expired_inconclusive":      A.hangs,
 			"fault_address_miss":                 A.faultMiss,
 			"fault_grid_coverage":                map[string]any{"reachable_cells_hit": gridHit, "reachable_cells": possibleCells, "cells_hit_including_random_scenarios": len(A.gridCells), "cell": "target:syscall:errno:format with an injected fault that actually fired; reachable = the syscall occurs on that path in the fault-free strace of the grid program", "fault_free_traces": gridTraces},
 			"exit_status_histogram":              A.exitHist,
@@ -937,6 +949,11 @@ func runC19(tierName string) int {
 	cleanupAll()
 	if violations > 0 {
 		return 1
+	}
+	if A.hangs > 0 {
+		// nothing that ran broke the contract, but some runs never ended: neither a pass nor a violation
+		fmt.Fprintf(os.Stderr, "INFRA-ERROR: %d scenario(s) were still running when the watchdog expired (inconclusive); first: %s\n", A.hangs, A.firstHang)
+		return 2
 	}
 	return 0
 }
